@@ -9,19 +9,25 @@ package tasks
 // A Task is an immutable snapshot of a task object: its observable attributes are functions of the value.
 //@ pure taskRefOf(t Task) execution.TaskRef
 //@ pure taskName(t Task) string
-//@ pure taskDeletionTs(t Task) *metav1.Time
+// value-level views (independent of the heap): whether / when the task finished, started running, was created, was asked to be deleted
+//@ pure taskFinished(t Task) bool
+//@ pure taskRunningSet(t Task) bool
+//@ pure taskCreatedNs(t Task) Int
+//@ pure taskDelSet(t Task) bool
+//@ pure taskDelNs(t Task) Int
 //@ pure taskOwners(t Task) []metav1.OwnerReference
 //@ axiom ref-name-is-task-name: forall t Task :: taskRefOf(t).Name == taskName(t)
 
 //@ extern func iface github.com/furiko-io/furiko/pkg/execution/tasks.Task.GetTaskRef
 //@   params recv
 //@   ensures result == taskRefOf(recv)
+//@   ensures result.FinishTimestamp.IsZero() == !taskFinished(recv) && result.RunningTimestamp.IsZero() == !taskRunningSet(recv) && ns(result.CreationTimestamp.Time) == taskCreatedNs(recv)
 //@ extern func iface github.com/furiko-io/furiko/pkg/execution/tasks.Task.GetName
 //@   params recv
 //@   ensures result == taskName(recv)
 //@ extern func iface github.com/furiko-io/furiko/pkg/execution/tasks.Task.GetDeletionTimestamp
 //@   params recv
-//@   ensures result == taskDeletionTs(recv)
+//@   ensures result.IsZero() == !taskDelSet(recv) && (taskDelSet(recv) ==> ns(result.Time) == taskDelNs(recv))
 //@ extern func iface github.com/furiko-io/furiko/pkg/execution/tasks.Task.GetOwnerReferences
 //@   params recv
 //@   ensures result == taskOwners(recv)
